@@ -427,6 +427,24 @@ func (w *rsWorld) runServe() string {
 					}
 					w.request(hc, ws, "/mirror/"+oh+"/"+pth, true)
 				}
+				// the same tiles while the mirror checkpoint is not there (an upload
+				// in progress): headers are a function of the path, not of that file
+				ck := filepath.Join(wd.Dir, "mirror", oh, "checkpoint")
+				if b, err := os.ReadFile(ck); err == nil && n > 0 {
+					os.Remove(ck)
+					w.sim.Probe("mirror.no-checkpoint")
+					for i, c := range ref.RequiredTiles(n, false) {
+						if i%3 != 0 && c.Level != -1 {
+							continue
+						}
+						pth := c.Path()
+						if c.Level == -1 {
+							pth = strings.Replace(pth, "tile/data/", "tile/entries/", 1)
+						}
+						w.request(hc, ws, "/mirror/"+oh+"/"+pth, true)
+					}
+					os.WriteFile(ck, b, 0o644)
+				}
 			}
 			for _, u := range []string{"/" + oh + "/../witness.v0.json", "/" + oh + "/", "/mirror/" + oh + "/", "/mirror/../witness.v0.json", "/" + oh + "/%2e%2e/%2e%2e/secret.txt", "/mirror/" + oh + "/tile/"} {
 				w.sim.Probe("requests.hostile")
